@@ -2,7 +2,7 @@
 """Regenerates /verif/MANIFEST.json from the table below (kept here so it stays consistent)."""
 import json, os, subprocess
 ROOT = os.path.dirname(os.path.dirname(os.path.abspath(__file__)))
-HOOK_COMMITS = ["33257d2", "7614da3"]
+HOOK_COMMITS = ["33257d2", "7614da3", "5d248d3"]
 TRUST = "Trusted base: the simulator itself (driver, scripted handlers, recording sink, oracles); encoding_rs; rustc. The whole lol_html crate runs as shipped (release profile with debug-assertions and overflow-checks on, feature-gated hooks are read-only)."
 CHECKS = {
  "C02": dict(level="exploration", tech="deterministic simulation: every schedule compared with the single-write reference execution (relational oracle over histories)",
